@@ -463,10 +463,7 @@ def push_order_level(res, tier, seed):
         base_push = [["g", i] for i in range(len(groups))] + [["b", i] for i in range(len(benches))]
         prog = {"id": f"go{k}", "crate": "prog", "clock": {"start": 1000, "read_step": 0, "precision": 1},
                 "benches": benches, "groups": groups, "ginst": ginst, "push": base_push, "builder": [], "entry": "main"}
-        cfg = progs.gen_config(rnd, prog, action=rnd.choice(["test", "list", "bench"]), paths=[])
-        cfg["filters"] = []
-        cfg["argv"] = [a for a in cfg["argv"] if a.startswith("--") or a in ("tsc", "kind", "name", "location", "terse")
-                       or a.replace(".", "").replace(",", "").isdigit() or a in ("true", "false")]
+        cfg = progs.gen_config(rnd, prog, action=rnd.choice(["test", "list", "bench"]), paths=[], nf=0)
         perms = list(itertools.permutations(base_push))
         rnd.shuffle(perms)
         for pi, perm in enumerate(perms[:6]):
